@@ -117,7 +117,8 @@ def threshold_grid(triples, inst_prop=RDF_TYPE):
     for n in set(class_sizes(triples, inst_prop).values()):
         for k in range(1, n):
             ths.add((k, n))
-    return sorted(ths)
+    from fractions import Fraction
+    return sorted(ths, key=lambda t: Fraction(*t))
 
 
 BOOL_SWITCHES = ['all_compliant', 'keep_less_specific', 'discard_useless', 'allow_opt', 'disable_exact',
